@@ -317,7 +317,7 @@ def run(tier, v):
         "(prompt) in thorough",
         "real-time runs: the two one-sided discard rules are judged from stamps that bracket the Waiter's clock reading; "
         "the exact boundary (lateness within the [a,b] interval / +-1 ms of 2 s) is decided at design level only",
-        "run-length bound checked with the measured response times and 3 s scheduling slack",
+        "run-length bound checked with the measured response times and 8 s scheduling slack",
         "trusted: recording Schedule wrapper / gun / aggregator mocks of harness/cmd/vdrive/timing.go, goroutine-id tagging"]
 
 
